@@ -3,5 +3,6 @@ EXTENDS PyStmt
 ASSUME OneStatementPerLine
 ASSUME Emit
 ASSUME EmitDefs
+ASSUME EmitSlots
 ASSUME PrintT("UNIVERSE " \o ToString(Cardinality(Stmts)))
 =============================================================================
